@@ -50,6 +50,32 @@ def run(R, ctx):
             bad = "the BufWriter capacity is not the configured one"
         n += 1
     R.check('R11.1', f"{ob.path}|bufwriter-iff-buffersize", not bad and n >= 2, "BufWriter iff buffersize() is Some", f"open_log_file: {bad}", where=ob.loc())
+    # every other place that mounts a log-file writer (reopen_output after an external rename, today unbuffered in every mode): a BufWriter around
+    # the file only on paths on which buffersize() was found to be Some - never a default capacity for the unbuffered modes
+    rb = ctx.body(r'^writers::file_log_writer::state::State::reopen_outputfile$')
+    I2 = FDI(f, effects=EFF, no_inline=[r'WriteMode::buffersize$', r'FileSpec::as_pathbuf$', r'create_symlink_if_possible$'])
+    bad = None
+    n = 0
+    for r in I2.run(rb.path):
+        if r.undecided:
+            raise CheckError(f"R11.1 {rb.path}: UNDECIDED {r.undecided}")
+        n += 1
+        if any('BufWriter' in e[0] for e in r.effects):
+            bs = [v for a, v in r.cond if a.startswith('variant(') and 'buffersize#' in a]
+            if not bs or 'Some' not in bs or 'None' in bs:
+                bad = f"the re-opened file is wrapped in a BufWriter on a path on which buffersize() is {bs or 'not examined'}"
+    R.check('R11.1', f"{rb.path}|bufwriter-only-if-buffersize", not bad and n >= 2, f"{n} rows: no BufWriter unless buffersize() is Some",
+            f"reopen_outputfile: {bad}: in direct mode records acknowledged after reopen_output() sit in a user-space buffer and are lost by a kill", where=rb.loc())
+    # ... and there is no third place: every BufWriter<File> of the file writer is constructed in (a helper of) one of the two
+    roots = {ob.path, rb.path}
+    for x in f.fn_bodies():
+        if not x.file.startswith('src/writers/file_log_writer'):
+            continue
+        for bb, t in x.calls():
+            if re.search(r'BufWriter::<W>::(new|with_capacity)$', callee_name(t)) and 'std::fs::File' in ' '.join(t['callee'].get('targs') or []):
+                rt = root_fn(x.path)
+                R.check('R11.1', f"{rt}|bufwriter-site", rt in roots or only_called_from(cg, rt, roots), "BufWriter<File> constructed by open_log_file / reopen_outputfile (or a private helper of them)",
+                        f"{x.path} wraps a log file in a BufWriter outside the functions whose write-mode table is decided: direct mode may be buffered", where=x.loc(bb))
     # R11.2
     # the synchronous record path = every path through a format-calling body of the file writer that hands the record to
     # State::write_buffer: on such a path nothing is sent to a channel and no thread is spawned (path rows, so that the
